@@ -77,6 +77,13 @@ def nice_fraction(x):
     return F(repr(x))
 
 
+def _is_nan(x):
+    return isinstance(x, (builtins.float, _np.floating)) and x != x
+
+
+NAN = builtins.float('nan')
+
+
 def _is_num(x):
     return isinstance(x, (int, builtins.float, _np.floating, _np.integer, F)) and not isinstance(x, (bool, _np.bool_))
 
@@ -588,6 +595,8 @@ class SR:
     def __add__(self, o):
         if _arr(o):
             return NotImplemented
+        if _is_nan(o):
+            return NAN
         if _is_num(o) and o == 0:
             return self
         return SR(self.t + lift(o), _lin_add(self.lin, Lin.of(o)), None, _fop(_np.add, self, o))
@@ -597,6 +606,8 @@ class SR:
     def __sub__(self, o):
         if _arr(o):
             return NotImplemented
+        if _is_nan(o):
+            return NAN
         if _is_num(o) and o == 0:
             return self
         return SR(self.t - lift(o), _lin_add(self.lin, Lin.of(o), -1), None, _fop(_np.subtract, self, o))
@@ -604,6 +615,8 @@ class SR:
     def __rsub__(self, o):
         if _arr(o):
             return NotImplemented
+        if _is_nan(o):
+            return NAN
         if _is_num(o) and o == 0:
             return -self
         return SR(lift(o) - self.t, _lin_add(Lin.of(o), self.lin, -1), None, _fop(_np.subtract, o, self))
@@ -611,6 +624,8 @@ class SR:
     def __mul__(self, o):
         if _arr(o):
             return NotImplemented
+        if _is_nan(o):
+            return NAN
         if _is_num(o):
             if o == 0:
                 return 0.0
@@ -656,6 +671,8 @@ class SR:
     def __truediv__(self, o):
         if _arr(o):
             return NotImplemented
+        if _is_nan(o):
+            return NAN
         if _is_num(o):
             if o == 0:
                 CTX.obligation('div', z3.BoolVal(True), 'division by concrete zero')
@@ -698,6 +715,8 @@ class SR:
     def __rtruediv__(self, o):
         if _arr(o):
             return NotImplemented
+        if _is_nan(o):
+            return NAN
         if _is_num(o) and o == 0:
             _record_div(self.t, self.fv)
             return 0.0
@@ -754,31 +773,39 @@ class SR:
     def __lt__(self, o):
         if _arr(o):
             return NotImplemented
+        if _is_nan(o):
+            return False
         _angle_compared(self, o)
         return SymBool(self.t < lift(o), _fop(_np.less, self, o))
 
     def __le__(self, o):
         if _arr(o):
             return NotImplemented
+        if _is_nan(o):
+            return False
         _angle_compared(self, o)
         return SymBool(self.t <= lift(o), _fop(_np.less_equal, self, o))
 
     def __gt__(self, o):
         if _arr(o):
             return NotImplemented
+        if _is_nan(o):
+            return False
         _angle_compared(self, o)
         return SymBool(self.t > lift(o), _fop(_np.greater, self, o))
 
     def __ge__(self, o):
         if _arr(o):
             return NotImplemented
+        if _is_nan(o):
+            return False
         _angle_compared(self, o)
         return SymBool(self.t >= lift(o), _fop(_np.greater_equal, self, o))
 
     def __eq__(self, o):
         if _arr(o):
             return NotImplemented
-        if o is None or isinstance(o, str):
+        if o is None or isinstance(o, str) or _is_nan(o):
             return False
         _angle_compared(self, o)
         return SymBool(self.t == lift(o), _fop(_np.equal, self, o))
@@ -786,7 +813,7 @@ class SR:
     def __ne__(self, o):
         if _arr(o):
             return NotImplemented
-        if o is None or isinstance(o, str):
+        if o is None or isinstance(o, str) or _is_nan(o):
             return True
         _angle_compared(self, o)
         return SymBool(self.t != lift(o), _fop(_np.not_equal, self, o))
